@@ -7,10 +7,11 @@ CONSTANTS
  Variants <- A_com1
  NaiveMaxP = 13
  NaiveVariants <- D_com1
+ AccMaxP = 47
  NbrMaxP = 47
- NbrVariants <- N_com1
+ NbrVariants <- A_com1q
  Mode = "nbr"
  CheckArith = FALSE
- SortedBases = FALSE
+ SortedBases = TRUE
 INVARIANTS BlockIsDefinition BlockSound Sound Complete Shape Elements Emit
 CHECK_DEADLOCK FALSE
